@@ -17,3 +17,5 @@ def check(ctx: Ctx) -> None:
     CT.r_omitted_params(ctx, "R17.10")
     CT.r_conversion_sites(ctx, "R17.11")
     CT.r_parser_config(ctx, "R17.12")
+    # the reply is exactly the text the command wrote: the buffer starts every command empty and rewound
+    CT.r_buffer(ctx, "R17.13")
